@@ -165,6 +165,8 @@ struct Run<'a> {
     /// keys that were past their time-to-live before a full sweep cycle began and are still held after it (owned by C10;
     /// other foci continue and name the state "expired-overdue" instead of "expired-unswept")
     overdue: BTreeMap<u64, (u64, u128)>,
+    /// key -> (id, clock): a read returned the key's value while the clock stood exactly at its expiry
+    deadline_witness: BTreeMap<u64, (u64, u128)>,
 }
 
 fn has(props: &[&'static str], p: &str) -> bool { props.iter().any(|x| *x == p) }
@@ -194,6 +196,29 @@ impl<'a> Run<'a> {
     /// true when `now == expiry`: the statement leaves the instant of expiry itself open
     fn at_deadline(&self, key: u64) -> bool {
         self.model.get(&key).and_then(|e| e.expiry).map(|e| e == self.now() as u128).unwrap_or(false)
+    }
+
+    /// The instant `now == expiry` is left open by the statements (a read may return the value or absent), but the cache has to give ONE
+    /// answer about it: once a read has returned the value at that clock reading, a sweep at the same clock reading must not evict the key.
+    /// The probe only records what the read said; it is not judged for presence.
+    fn probe_at_deadline(&mut self, key: u64) {
+        if self.stop || !self.at_deadline(key) || self.cfg.hit_only { return; }
+        let entry = match self.model.get(&key) { Some(e) => e.clone(), None => return };
+        self.lookups += 1;
+        let got = read(&self.sut.cache, 0, key);
+        self.counts.inc("reads_at_the_exact_deadline");
+        match got {
+            Some(value) if value == entry.value => {
+                // the id is learnt from the store (the model may not know it yet)
+                let id = self.sut.snapshot().stored.iter().find(|e| e.0 == key).map(|e| e.1).unwrap_or(entry.id);
+                self.deadline_witness.insert(key, (id, self.now() as u128));
+                self.crit("value-returned-at-the-exact-deadline");
+            }
+            Some(value) => {
+                self.fail(&["C02", "C03", "C08"], "C02/stale-value/get".into(), format!("get of key {} returned {:#x} at its deadline but its current value is {:#x}", key, value, entry.value));
+            }
+            None => { self.counts.inc("reads_at_the_exact_deadline_absent"); }
+        }
     }
 
     fn model_total(&self) -> i128 { self.model.values().map(|e| e.weight as i128).sum() }
@@ -339,7 +364,7 @@ impl<'a> Run<'a> {
     fn sweep_reads(&mut self, context: &str) {
         for key in 1..=self.cfg.n_keys {
             if self.stop { return; }
-            if self.at_deadline(key) { continue; }
+            if self.at_deadline(key) { self.probe_at_deadline(key); continue; }
             if self.cfg.hit_only && !self.readable(key) { continue; }
             self.read_rotation += 1;
             let variant = self.read_rotation;
@@ -389,6 +414,11 @@ impl<'a> Run<'a> {
                                 match entry.expiry {
                                     // a sweep at the very instant of expiry is not judged (the statements leave that instant open)
                                     Some(expiry) if expiry <= sweep_now => {
+                                        if expiry == sweep_now && self.deadline_witness.get(&key) == Some(&(id, sweep_now)) {
+                                            self.fail(&["C10", "C03", "C09"], "C10/swept-at-an-instant-at-which-reads-still-return-the-key".into(),
+                                                      format!("a read returned key {} (id {}) while the clock stood at {}, exactly its expiry, and a sweep at that same clock reading evicted it: reads and the sweeper disagree about that instant", key, id, sweep_now));
+                                            return;
+                                        }
                                         self.model.remove(&key);
                                         self.dead_ids.insert(id);
                                         self.counts.inc("keys_swept");
@@ -807,6 +837,7 @@ impl<'a> Run<'a> {
                 }
             }
         }
+        if self.at_deadline(key) { self.probe_at_deadline(key); }
         // immediate read-back through get_ref: value and expiry visible as soon as the call returned / was acknowledged
         if !self.at_deadline(key) && !(self.cfg.hit_only && !self.readable(key)) {
             self.lookups += 1;
@@ -947,6 +978,8 @@ impl<'a> Run<'a> {
         if before as u128 + delta_ns as u128 > 17_900_000_000u128 * NS as u128 { return; }
         self.sut.advance(delta_ns);
         self.sig = fnv_step(self.sig, 0xADu64 ^ (delta_ns.min(4 * NS)));
+        let at_deadline: Vec<u64> = self.model.keys().copied().filter(|k| self.at_deadline(*k)).collect();
+        for key in at_deadline { self.probe_at_deadline(key); }
         if let Err(waited) = self.sut.settle() { self.stuck("sweeps after a clock change", waited); return; }
         let now = self.now() as u128;
         for (_, entry) in self.model.iter() {
@@ -1095,6 +1128,8 @@ impl<'a> Run<'a> {
         if !deadlines.is_empty() && self.rng.chance(2, 3) {
             let deadline = *self.rng.pick(&deadlines);
             let distance = (deadline - now) as u64;
+            // now and then land exactly on the deadline (the instant itself is not judged, but reads and sweeps must agree about it)
+            if self.rng.chance(1, 10) { return distance; }
             return match self.rng.below(4) {
                 0 => distance.saturating_sub(1),
                 1 => distance + 1,
@@ -1271,7 +1306,7 @@ pub fn run_history(cfg: &SeqCfg) -> SeqOut {
     let mut run = Run {
         cfg, sut, model: BTreeMap::new(), rng: rt::rng_for(cfg.seed, cfg.index, 0x5EC), findings: Vec::new(), counts: Counts::default(),
         critical: BTreeSet::new(), history: Vec::new(), sig: 0xcbf2_9ce4_8422_2325, lookups: 0, admission_rejects: 0, token_counter: 0,
-        read_rotation: cfg.index as usize, stop: false, dead_ids: BTreeSet::new(), evictions_seen: 0, noise_on: cfg.noise_threads > 0, last_state: KeyState::Absent, panic_mark: rt::panic_count(), pending_events: Vec::new(), overdue: BTreeMap::new(),
+        read_rotation: cfg.index as usize, stop: false, dead_ids: BTreeSet::new(), evictions_seen: 0, noise_on: cfg.noise_threads > 0, last_state: KeyState::Absent, panic_mark: rt::panic_count(), pending_events: Vec::new(), overdue: BTreeMap::new(), deadline_witness: BTreeMap::new(),
     };
     let stop_noise = Arc::new(AtomicBool::new(false));
     let mut noise_handles = Vec::new();
